@@ -493,14 +493,14 @@ func c13FilterUses(c *Ctx, r *Report) {
 			}
 		}
 	})
-	allowed := map[string]bool{"(*lint.registryImpl).lintNamesToMap": true, "errors.New": true, "<dynamic call>": true}
+	allowed := map[string]bool{"(*lint.registryImpl).lintNamesToMap": true, "errors.New": true, "fmt.Errorf": true, "<dynamic call>": true}
 	nOrig := 0
 	for o, pos := range origins {
 		nOrig++
 		r.Check(allowed[o], "filter-errors", "Filter|"+o, pos, "error origin allowed (name validation / NameFilter conflict / re-registration)",
 			"Filter can fail with an error produced by "+o+": only unknown names, the NameFilter/name-list conflict and re-registration may be rejected — a listed source or name must be accepted")
 	}
-	r.Floor("error origins of Filter", 3, nOrig)
+	r.Floor("error origins of Filter", 2, nOrig)
 	if f := c.FuncMaybe("lint", "sourceListToMap"); f != nil {
 		res := f.Signature.Results()
 		r.Check(res.Len() == 1, "filter-errors", "sourceListToMap|signature", f.Pos(), "returns only the set", "sourceListToMap can return an error: a source the registry lists could be rejected by Filter")
